@@ -244,3 +244,266 @@ func runX9(p *an.Prog, r *an.Result) {
 	r.Counts["semantic value stores"] = stores
 	r.Floor("semantic value stores", 6)
 }
+
+// ---------------------------------------------------------------------------
+// X10
+
+func init() {
+	register("X10", "the bracket form a[i] evaluates through IndexValue with the evaluated index and the dot form a.b through PropertyValue with the name fixed at parse time: no evaluation closure consults both, so first/last/size are reachable only by the dot form", runX10)
+}
+
+func runX10(p *an.Prog, r *an.Result) {
+	pkg := p.Package("expressions")
+	if pkg == nil {
+		r.Bad("-", "package expressions not found", token.NoPos, "anchor not resolved")
+		return
+	}
+	isLookup := func(c *ssa.CallCommon, method string) bool {
+		return c.IsInvoke() && c.Method.Name() == method && isNamedIn(c.Value.Type(), "values", "Value")
+	}
+	for _, fn := range p.Funcs {
+		if fn.Pkg != pkg && (fn.Parent() == nil || an.Outermost(fn).Pkg != pkg) {
+			continue
+		}
+		var idx, prop []*ssa.Call
+		an.EachInstr(fn, func(in ssa.Instruction) {
+			if c, ok := in.(*ssa.Call); ok {
+				if isLookup(&c.Call, "IndexValue") {
+					idx = append(idx, c)
+				}
+				if isLookup(&c.Call, "PropertyValue") {
+					prop = append(prop, c)
+				}
+			}
+		})
+		if len(idx)+len(prop) == 0 {
+			continue
+		}
+		name := an.FuncName(fn)
+		r.Counts["lookup closures"]++
+		switch {
+		case len(idx) > 0 && len(prop) > 0:
+			r.Bad(name, "one evaluation step consults both IndexValue and PropertyValue", prop[0].Pos(), "a[\"first\"], a[\"size\"] would answer like a.first, a.size: the bracket form reads entries, only the dot form offers the built-in properties")
+		case len(idx) > 1 || len(prop) > 1:
+			r.Bad(name, "more than one lookup in one evaluation step", an.FuncPos(fn), "each bracket or dot is one lookup")
+		case len(idx) == 1:
+			// the index is evaluated at run time: the result of calling a captured function
+			arg := idx[0].Call.Args[0]
+			if c := an.CallOf(arg); c != nil && c.StaticCallee() == nil && !c.IsInvoke() {
+				r.OK(name, "a[i]: IndexValue(evaluated index)", idx[0].Pos(), "")
+			} else {
+				r.Bad(name, "a[i]: the index is not the evaluated index expression", idx[0].Pos(), "the bracket form must look up the value of its index expression")
+			}
+		default:
+			// the property name is fixed when the expression is built: a captured value
+			arg := prop[0].Call.Args[0]
+			fixed := false
+			for _, o := range an.Origins(arg, an.StepValue) {
+				if u, ok := o.(*ssa.UnOp); ok {
+					if _, isFV := u.X.(*ssa.FreeVar); isFV {
+						fixed = true
+					}
+				}
+				if _, isFV := o.(*ssa.FreeVar); isFV {
+					fixed = true
+				}
+			}
+			if fixed {
+				r.OK(name, "a.b: PropertyValue(name fixed at parse time)", prop[0].Pos(), "")
+			} else {
+				r.Bad(name, "a.b: the property is not the parsed name", prop[0].Pos(), "the dot form must look up the name written in the template")
+			}
+		}
+	}
+	r.Floor("lookup closures", 2)
+}
+
+// ---------------------------------------------------------------------------
+// F7
+
+func init() {
+	register("F7", "no value that can hold caller data is recognised as a container by asserting one particular Go container type (map[string]any, []any, ...): containers are recognised by kind, so that typed and generic containers of the same Liquid value take the same path; an assertion is accepted only as a fast path beside a test of the reflect kind", runF7)
+}
+
+func runF7(p *an.Prog, r *an.Result) {
+	roles := GetRoles(p)
+	for _, fn := range p.Funcs {
+		if isMainPkg(fn) {
+			continue
+		}
+		name := roles.Label(fn)
+		an.EachInstr(fn, func(in ssa.Instruction) {
+			ta, ok := in.(*ssa.TypeAssert)
+			if !ok {
+				return
+			}
+			if _, isNamed := ta.AssertedType.(*types.Named); isNamed {
+				return
+			}
+			kind := int64(0)
+			switch u := ta.AssertedType.Underlying().(type) {
+			case *types.Map:
+				kind = 21
+			case *types.Slice:
+				if b, ok := u.Elem().Underlying().(*types.Basic); ok && b.Kind() == types.Byte {
+					return // bytes are text
+				}
+				kind = 23
+			default:
+				return
+			}
+			if it, ok := ta.X.Type().Underlying().(*types.Interface); !ok || it.NumMethods() > 0 {
+				return
+			}
+			// the dynamic type is known: the value was boxed from that type in this function
+			known := true
+			for _, o := range an.Origins(ta.X, an.StepValue) {
+				mi, ok := o.(*ssa.MakeInterface)
+				if !ok || !types.Identical(mi.X.Type(), ta.AssertedType) {
+					known = false
+				}
+			}
+			if known {
+				return
+			}
+			r.Counts["container type assertions"]++
+			construct := fmt.Sprintf("%s.(%s)", describe(p, ta.X), an.TypeName(ta.AssertedType))
+			// the module's own record: read back under the constant name under which the module
+			// binds a value of exactly this type
+			own := false
+			for _, o := range an.Origins(ta.X, an.StepValue) {
+				c := an.CallOf(o)
+				if c == nil || an.CallName(c) != "(render.Context).Get" {
+					continue
+				}
+				key, ok := an.ConstString(c.Args[0])
+				if !ok {
+					continue
+				}
+				for _, f := range p.Funcs {
+					for _, sc := range callsNamed(f, "(render.Context).Set") {
+						if k2, ok := an.ConstString(sc.Call.Args[0]); ok && k2 == key {
+							if mi, ok := sc.Call.Args[1].(*ssa.MakeInterface); ok && types.Identical(mi.X.Type(), ta.AssertedType) {
+								own = true
+							}
+						}
+					}
+				}
+			}
+			if own {
+				r.OK(name, construct, ta.Pos(), "the value is read back under the name under which the module itself binds a value of exactly this type (its own record, not a caller's container)")
+				return
+			}
+			// a fast path: the same function also recognises the kind reflectively
+			byKind := false
+			for _, f := range unitWithHelpers(p, an.Outermost(fn)) {
+				an.EachInstr(f, func(x ssa.Instruction) {
+					b, ok := x.(*ssa.BinOp)
+					if !ok || b.Op != token.EQL {
+						return
+					}
+					for _, pair := range [][2]ssa.Value{{b.X, b.Y}, {b.Y, b.X}} {
+						if isPkgType(pair[0].Type(), "reflect", "Kind") {
+							if c, ok := an.ConstInt(pair[1]); ok && (c == kind || kind == 23 && c == 17) {
+								byKind = true
+							}
+						}
+					}
+				})
+			}
+			if byKind {
+				r.OK(name, construct, ta.Pos(), "a fast path: the function also recognises the container by its reflect kind")
+			} else {
+				r.Bad(name, construct, ta.Pos(), fmt.Sprintf("%s recognises a container only if it has exactly the Go type %s: a typed container with the same Liquid value (another element or key type, a named type) takes the other path", an.FuncName(fn), an.TypeName(ta.AssertedType)))
+			}
+		})
+	}
+	if r.Counts["container type assertions"] == 0 {
+		r.Triv("-", "no assertion of a concrete container type on an untyped value", token.NoPos, "containers are recognised by reflect kind or through the value layer")
+	}
+}
+
+// ---------------------------------------------------------------------------
+// X11
+
+func init() {
+	register("X11", "values.Equal compares arrays and slices element by element with itself: its two operands as wholes reach Go's == or reflect.DeepEqual only where one of them is nil or the joined kind has been found to be neither Array nor Slice", runX11)
+}
+
+func runX11(p *an.Prog, r *an.Result) {
+	fn := p.Func("values.Equal")
+	if fn == nil || len(fn.Params) != 2 {
+		r.Bad("-", "values.Equal not found", token.NoPos, "anchor not resolved")
+		return
+	}
+	name := an.FuncName(fn)
+	// the operands: the parameters or what ToLiquid made of them (through phis and cells)
+	isOperand := func(v ssa.Value, k int) bool {
+		for _, o := range an.Origins(v, an.StepValue) {
+			o = an.Deref(o)
+			if o == ssa.Value(fn.Params[k]) {
+				return true
+			}
+			if c := an.CallOf(o); c != nil && an.CallName(c) == "values.ToLiquid" {
+				for _, oo := range an.Origins(c.Args[0], an.StepValue) {
+					if an.Deref(oo) == ssa.Value(fn.Params[k]) {
+						return true
+					}
+				}
+			}
+		}
+		return false
+	}
+	both := func(x, y ssa.Value) bool {
+		return isOperand(x, 0) && isOperand(y, 1) || isOperand(x, 1) && isOperand(y, 0)
+	}
+	notKind := func(k int64) func(ssa.Value, bool) bool {
+		return func(cond ssa.Value, taken bool) bool {
+			b, ok := cond.(*ssa.BinOp)
+			if !ok || !(b.Op == token.EQL && !taken || b.Op == token.NEQ && taken) {
+				return false
+			}
+			for _, pair := range [][2]ssa.Value{{b.X, b.Y}, {b.Y, b.X}} {
+				if c, ok := an.ConstInt(pair[1]); ok && c == k && isPkgType(pair[0].Type(), "reflect", "Kind") {
+					return true
+				}
+			}
+			return false
+		}
+	}
+	nilTest := func(cond ssa.Value, taken bool) bool {
+		b, ok := cond.(*ssa.BinOp)
+		if !ok || !(b.Op == token.EQL && taken || b.Op == token.NEQ && !taken) {
+			return false
+		}
+		return an.IsNilConst(b.Y) && (isOperand(b.X, 0) || isOperand(b.X, 1)) || an.IsNilConst(b.X) && (isOperand(b.Y, 0) || isOperand(b.Y, 1))
+	}
+	check := func(in ssa.Instruction, what string) {
+		r.Counts["whole-value comparisons"]++
+		blk := in.Block()
+		switch {
+		case an.AllPathsGuarded(blk, nilTest):
+			r.OK(name, what, an.InstrPos(in), "reached only when an operand is nil")
+		case an.AllPathsGuarded(blk, notKind(17)) && an.AllPathsGuarded(blk, notKind(23)):
+			r.OK(name, what, an.InstrPos(in), "reached only after the joined kind was found to be neither Array nor Slice")
+		default:
+			r.Bad(name, what+" can compare two arrays or slices as wholes", an.InstrPos(in), "arrays and slices are equal when their elements are equal in the Liquid sense (1 and int64(1), a Drop and its value); Go's == and DeepEqual compare Go representations")
+		}
+	}
+	an.EachInstr(fn, func(in ssa.Instruction) {
+		switch x := in.(type) {
+		case *ssa.BinOp:
+			if (x.Op == token.EQL || x.Op == token.NEQ) && an.IsInterface(x.X.Type()) && both(x.X, x.Y) {
+				check(in, "a == b")
+			}
+		case *ssa.Call:
+			if x.Call.StaticCallee() == fn {
+				return
+			}
+			if len(x.Call.Args) >= 2 && both(x.Call.Args[0], x.Call.Args[1]) {
+				check(in, nonEmpty(an.CallName(&x.Call), "call")+"(a, b)")
+			}
+		}
+	})
+	r.Floor("whole-value comparisons", 2)
+}
